@@ -3,7 +3,6 @@
 use super::c06::field_mutations;
 use crate::alloc;
 use crate::gen::bytes::*;
-use crate::gen::lzma2::abs_chunks;
 use crate::gen::program::*;
 use crate::gen::xz::*;
 use crate::iowrap::{SinkCfg, SinkState};
